@@ -8,6 +8,7 @@ package main
 // arbitrary further traffic.
 
 import (
+	"sort"
 	"time"
 )
 
@@ -100,22 +101,27 @@ func ackLeased(sub string, kind string, seconds int32, onlyFirst bool) scriptSte
 func subStep(q *SubReq) scriptStep { return opStep(&Op{Kind: "CreateSub", Sub: q}) }
 
 // acknowledge exactly n of the leased deliveries of a subscription (skipping the first
-// [skip] in id order) in one request
+// [skip] oldest) in one request
 func ackLeasedN(sub string, skip, n int) scriptStep {
 	return func(g *Gen, d *Dump, vnow int64) Action {
 		s := d.subByName(sub)
-		var ids []string
-		seen := 0
+		var leased []DelRow
 		for _, x := range d.Dels {
 			if s != nil && x.Sub == s.ID && x.Completed == nil && x.Attempts > 0 {
-				seen++
-				if seen <= skip {
-					continue
-				}
-				ids = append(ids, x.ID.String())
-				if len(ids) == n {
-					break
-				}
+				leased = append(leased, x)
+			}
+		}
+		// oldest first: skipping one leaves the OLDEST message outstanding, so that a snapshot
+		// taken afterwards records every later acknowledged message in its list
+		sort.SliceStable(leased, func(i, j int) bool { return leased[i].Published < leased[j].Published })
+		var ids []string
+		for i, x := range leased {
+			if i < skip {
+				continue
+			}
+			ids = append(ids, x.ID.String())
+			if len(ids) == n {
+				break
 			}
 		}
 		return Action{Op: &Op{Kind: "Ack", Name: sub, AckIDs: ids}}
@@ -129,9 +135,12 @@ func ackLeasedN(sub string, skip, n int) scriptStep {
 func bulkScript(n int) []scriptStep {
 	s := []scriptStep{
 		opStep(&Op{Kind: "CreateTopic", Name: sT0}),
-		subStep(&SubReq{Name: sS0, Topic: sT0}),
+		// (long leases: no deadline falls inside the slow thousand-row calls)
+		subStep(&SubReq{Name: sS0, Topic: sT0, Retry: retry(100 * time.Second)}),
 	}
-	for i := 0; i < n; i += 100 {
+	// one message on its own first: it stays unacknowledged, everything after it is acknowledged
+	s = append(s, pubStep(sT0, ""))
+	for i := 1; i < n; i += 100 {
 		k := 100
 		if n-i < k {
 			k = n - i
@@ -273,6 +282,24 @@ var genScenarios = map[string]func(g *Gen) []scriptStep{
 	// same-key replay (C05): the successor has been delivered once when a seek brings its
 	// acknowledged predecessor back; the successor's lease lapses while the predecessor is
 	// outstanding again
+	// an ordering chain whose head is acknowledged and physically pruned while the rest of the
+	// chain is still outstanding: the successors must stay (their predecessor link is cleared,
+	// they are not removed with the row they pointed at), and so on down the chain (C01/C05/C15)
+	"ordered-prune": func(g *Gen) []scriptStep {
+		job := func(name string) scriptStep {
+			return opStep(&Op{Kind: "Job", Job: name, MaxN: 100, MinAge: time.Second})
+		}
+		return []scriptStep{
+			opStep(&Op{Kind: "CreateTopic", Name: sT0}),
+			subStep(&SubReq{Name: sS0, Topic: sT0, Ordered: true, Retry: retry(time.Second)}),
+			pubStep(sT0, "k1", "k1", "k2"), pubStep(sT0, "k1", "k2"),
+			pullStep(sS0, 10), ackLeased(sS0, "Ack", 0, false),
+			advStep(3 * time.Second), job("PruneCompletedDeliveries"),
+			pullStep(sS0, 10), ackLeased(sS0, "Ack", 0, true),
+			advStep(3 * time.Second), job("PruneCompletedDeliveries"), job("PruneCompletedMessages"),
+			pullStep(sS0, 10), pastLeases(sS0), pullStep(sS0, 10),
+		}
+	},
 	"ordered-replay": func(g *Gen) []scriptStep {
 		return []scriptStep{
 			opStep(&Op{Kind: "CreateTopic", Name: sT0}),
@@ -412,7 +439,7 @@ var genScenarios = map[string]func(g *Gen) []scriptStep{
 	},
 }
 
-var scenarioNames = []string{"ordered-replay", "dl-deleted-topic", "dl-ordered-target", "dl-filtered-target", "snapshot-bystander", "seek-revive-late", "idle-expired-live", "filter-replaced", "ordered-chain", "lease-changes"}
+var scenarioNames = []string{"ordered-replay", "ordered-prune", "dl-deleted-topic", "dl-ordered-target", "dl-filtered-target", "snapshot-bystander", "seek-revive-late", "idle-expired-live", "filter-replaced", "ordered-chain", "lease-changes"}
 
 // scenariosFor lists the templates a generator profile may start with
 func scenariosFor(profile string) []string {
@@ -427,7 +454,7 @@ func scenariosFor(profile string) []string {
 		return []string{"filter-replaced", "idle-expired-live", "config-reset-each-field", "config-reset-each-field"}
 	case "c15":
 		// no reviving seeks in the paired histories
-		return []string{"dl-deleted-topic", "dl-ordered-target", "dl-filtered-target", "idle-expired-live", "filter-replaced"}
+		return []string{"ordered-prune", "dl-deleted-topic", "dl-ordered-target", "dl-filtered-target", "idle-expired-live", "filter-replaced"}
 	}
 	return nil
 }
